@@ -868,7 +868,7 @@ package keeper
 //@ ensures [single-keys-erased] err == nil ==> !present(types.ConsumerGenesisKey(consumerId)) && !present(types.InitChainHeightKey(consumerId)) && !present(types.SlashAcksKey(consumerId)) && !present(types.PendingVSCsKey(consumerId)) && !present(types.ConsumerIdToRemovalTimeKey(consumerId)) && !present(types.MinimumPowerInTopNKey(consumerId)) && !present(types.EquivocationEvidenceMinHeightKey(consumerId))
 //@ ensures [lists-erased] err == nil ==> $DeleteKeyAssignments.called && $DeleteKeyAssignments.consumerId == consumerId && $DeleteAllowlist.called && $DeleteAllowlist.consumerId == consumerId && $DeleteDenylist.called && $DeleteDenylist.consumerId == consumerId && $DeleteAllOptedIn.called && $DeleteAllOptedIn.consumerId == consumerId && $DeleteConsumerValSet.called && $DeleteConsumerValSet.consumerId == consumerId && $DeletePrioritylist.called && $DeletePrioritylist.consumerId == consumerId
 //@ ensures [infraction-queue-cleared] err == nil ==> $RemoveConsumerInfractionQueuedData.called && $RemoveConsumerInfractionQueuedData.consumerId == consumerId
-//@ ensures [close-only-open] E != old(E) ==> ch.1 && old(k.channelKeeper.GetChannel(ctx, ccv.ProviderPortID, ch.0)).1 && old(k.channelKeeper.GetChannel(ctx, ccv.ProviderPortID, ch.0)).0.State != channeltypes.CLOSED
+//@ ensures [close-only-open] (stretch) E != old(E) ==> ch.1 && old(k.channelKeeper.GetChannel(ctx, ccv.ProviderPortID, ch.0)).1 && old(k.channelKeeper.GetChannel(ctx, ccv.ProviderPortID, ch.0)).0.State != channeltypes.CLOSED
 
 // ---------------------------------------------------------------- C11 / C19: sending VSC packets
 
